@@ -347,7 +347,7 @@ Section Gate.
       of the committee (of the designated NeoFS Alphabet for neofs and
       processing) with m = n/2 + 1, a strict majority. *)
   Definition gate_keys (c : contract) (e : env) : list bytes :=
-    match c with CNeoFS | CProcessing => e_designated e | _ => e_committee e end.
+    match c with CNeoFS | CProcessing => e_designated e (e_height e + 1) | _ => e_committee e end.
 
   Lemma nns_threshold l : 1 <= l -> l - (l - 1) / 2 = l / 2 + 1.
   Proof.
